@@ -1,7 +1,7 @@
 (* C01: the input buffer invariant -- position < length after every SCPI_Input call, for every chunk (also overrunning
    ones), every history and every handler script; hence the NUL store data[position] = 0 is always inside the buffer. *)
 From Coq Require Import Bool List NArith ZArith Lia.
-From M Require LexModel MatchModel FmtModel UnitProgress.
+From M Require LexModel MatchModel FmtModel UnitProgress OpsGen.
 From M Require Import ParserModel Framing2 Dispatch Fuel.
 Import ListNotations.
 Local Open Scope Z_scope.
@@ -117,6 +117,23 @@ Proof.
   - destruct (cur c) as [[[pat tg] sc]|]; [|apply C_refl]. destruct (MatchModel.matchCommand _ _ _ _) as [r [a|]]; cbn [fst]; apply C_ev.
   - destruct (syst_err_parts c) as [[code info] q']. cbn [fst]. eapply C_trans; [|apply C_result_error]. eapply C_trans; [|apply C_emit_empty]. kr.
   - apply C_refl.
+  - apply C_result_int.
+  - apply C_result_int.
+  - apply C_result_int.
+  - apply C_result_int.
+  - apply C_item.
+  - apply C_item.
+  - apply C_item.
+  - destruct (cur c) as [[[pat tg] sc]|]; [|apply C_ev]. destruct (MatchModel.matchCommand _ _ _ _) as [r a]; cbn [fst]; apply C_ev.
+  - apply (OpsGen.R_result_array C C_refl C_trans C_result_int C_result_hdr C_result_data).
+  - pose proof (OpsGen.R_param_array C C_refl C_trans C_param_int C_param_fp ty (Z.to_nat cap) c m []) as H.
+    destruct (param_array _ _ c m []) as [[c1 m1] vals]; cbn [fst] in *. eapply C_trans; [exact H|apply C_ev].
+  - pose proof (C_parameter c m) as H. destruct (parameter c m) as [[c1 ok] t]; cbn [fst] in *. destruct ok; [|eapply C_trans; [exact H|apply C_ev]].
+    pose proof (OpsGen.R_expr_numlist C C_refl (fun c => C_error_push c (-170) None) (fun c => C_error_push c (-104) None) c1 t idx) as H2.
+    destruct (expr_numlist c1 t idx) as [c2 rep]; cbn [fst] in *. eapply C_trans; [exact H|]. eapply C_trans; [exact H2|apply C_ev].
+  - pose proof (C_parameter c m) as H. destruct (parameter c m) as [[c1 ok] t]; cbn [fst] in *. destruct ok; [|eapply C_trans; [exact H|apply C_ev]].
+    pose proof (OpsGen.R_expr_chanlist C C_refl (fun c => C_error_push c (-170) None) (fun c => C_error_push c (-104) None) c1 t idx cap) as H2.
+    destruct (expr_chanlist c1 t idx cap) as [c2 rep]; cbn [fst] in *. eapply C_trans; [exact H|]. eapply C_trans; [exact H2|apply C_ev].
 Qed.
 Lemma C_run_script s : forall c d, C c (fst (run_script s c d)).
 Proof.
